@@ -1,3 +1,4 @@
+import Secp.Proofs.ScalarApiTies
 import Secp.Proofs.WrapperTies
 import Secp.Proofs.Lawful
 import Secp.Proofs.Reduce
